@@ -181,6 +181,23 @@ CANARIES = [
     ('c12-placeholder-alias-dropped', 'C12', 'mindsdb_sql/planner/utils.py', "return ast.Constant(value, alias=node.alias, parentheses=node.parentheses)", "return ast.Constant(value, parentheses=node.parentheses)", 'C12.fill'),
     ('c17-harmless-hook-valueerror', 'C17', 'mindsdb_sql/render/sqlalchemy_render.py', "@compiles(INTERVAL)", "@compiles(INTERVAL, 'oracle')\ndef _compile_interval_oracle(element, compiler, **kw):\n    value, unit = element.info.split(' ', maxsplit=1)\n    return f\"INTERVAL '{value}' {unit.upper()}\"\n\n\n@compiles(INTERVAL)", None),
     ('c01-raw-query-newline-dropped', 'C01', 'mindsdb_sql/parser/utils.py', "            shift = last_pos + 1", "            shift = last_pos + 2", 'C01.prod.mindsdb.raw_query'),
+    # ---- rounds 7 / 8: canaries for the obligations added there
+    ('c03-not-in-unranked', 'C03', 'mindsdb_sql/parser/parser.py', "GEQ, IN, NOT, BETWEEN, IS, IS_NOT, LIKE),  # NOT: look-ahead of 'expr NOT IN expr'", "GEQ, IN, BETWEEN, IS, IS_NOT, LIKE),", 'C03.prec.sqlite.binary_AND_NOT'),
+    ('c19-eof-row-unvalidated', 'C19', 'mindsdb_sql/__init__.py', "                    if self.is_next_token(self.tokens + [token], token):\n                        suggestions.append(value)",
+     "                    suggestions.append(value)", 'C19.eof.viable.mindsdb'),
+    ('c05-parse-gets-list', 'C05', 'mindsdb_sql/__init__.py', "        ast = self.parser.parse(iter(tokens))\n        return ast is not None\n", "        ast = self.parser.parse(list(tokens))\n        return ast is not None\n", 'C05.drv.pre.query_is_valid'),
+    ('c05-harmless-parse-gets-generator', 'C05', 'mindsdb_sql/__init__.py', "        ast = self.parser.parse(iter(tokens))\n        return ast is not None\n", "        ast = self.parser.parse(t for t in tokens)\n        return ast is not None\n", None),
+    ('c04-id-not-closed', 'C04', 'mindsdb_sql/parser/lexer.py', "[a-zA-Z_$0-9]*[a-zA-Z_$]+[a-zA-Z_$0-9]*", "\\w*[a-zA-Z_$]+\\w*", 'C04.lex.id.closed.sqlite'),
+    ('c04-pair-alternative-dropped', 'C04', 'mindsdb_sql/parser/dialects/mindsdb/parser.py', """        return re.sub(r\"\"\"(\\\\\\\\)|\\\\(['"])\"\"\", r'\\1\\2', p[0][1:-1])""",
+     """        return re.sub(r\"\"\"\\\\(['"])\"\"\", r'\\1', p[0][1:-1])""", 'C04.dec.mindsdb.DQUOTE_STRING.backslash.modulo-pairs'),
+    ('c06-case-alias-dropped', 'C06', 'mindsdb_sql/render/sqlalchemy_render.py', "            col = self.prepare_case(t)\n            if t.alias:\n                alias = self.get_alias(t.alias)\n                col = col.label(alias)\n",
+     "            col = self.prepare_case(t)\n", 'C06.alias.case'),
+    ('c06-not-is-noop', 'C06', 'mindsdb_sql/render/sqlalchemy_render.py', "            if method == '__invert__' and getattr(arg, 'negate', None) is not None and arg.negate is getattr(arg, 'operator', None):",
+     "            if False:", 'C06.bounded.exec.pred.NOT-paren-is-null'),
+    ('c08-cte-setdefault', 'C08', 'mindsdb_sql/planner/query_planner.py', "            self.cte_results[name] = step.result\n", "            self.cte_results.setdefault(name, step.result)\n", 'C08.cte.bind.name-already-bound'),
+    ('c08-cte-branch-shares-select', 'C08', 'mindsdb_sql/planner/query_planner.py', "                select = copy.deepcopy(select)\n                select.from_table = None\n", "                select.from_table = None\n", 'C08.cte.lookup.bare-cte-name'),
+    ('c18-class-level-list', 'C18', 'mindsdb_sql/parser/ast/select/common_table_expression.py', "class CommonTableExpression(ASTNode):\n", "class CommonTableExpression(ASTNode):\n    columns = []\n", 'C18.copy.class-level'),
+    ('c20-null-singleton', 'C20', 'mindsdb_sql/parser/dialects/mindsdb/parser.py', "all_tokens_list.remove('LPAREN')\n", "all_tokens_list.remove('LPAREN')\nNULL_CONSTANT = NullConstant()\n", 'C20.globals.shared-node'),
 ]
 
 
